@@ -922,6 +922,29 @@ def _is_local_procedure(fnode, hnode, allow_nested=False):
     return allow_nested or not any(isinstance(x, (ast.FunctionDef, ast.Lambda, ast.ClassDef)) for st in hnode.body for x in ast.walk(st))
 
 
+def _generator_locals_to_loops(stmts, repo, f, new_funcs, resolve_helper):
+    """g = gen(args); for x in g: BODY     (g bound once, mentioned nowhere else; gen a new generator helper; the loop is the very next
+    statement, so the arguments are evaluated at the same point)   ->   for x in gen(args): BODY"""
+    out = []
+    i = 0
+    while i < len(stmts):
+        st = stmts[i]
+        nxt = stmts[i + 1] if i + 1 < len(stmts) else None
+        if isinstance(st, ast.Assign) and len(st.targets) == 1 and isinstance(st.targets[0], ast.Name) and isinstance(st.value, ast.Call) \
+                and isinstance(nxt, ast.For) and isinstance(nxt.iter, ast.Name) and nxt.iter.id == st.targets[0].id:
+            g = st.targets[0].id
+            h, _ = resolve_helper(repo, f, st.value)
+            mentions = [x for x in ast.walk(f.node) if isinstance(x, ast.Name) and x.id == g]
+            if h is not None and (h.qname in new_funcs or _is_local_procedure(f.node, h.node, allow_nested=True)) and h.node is not f.node and _is_generator(h.node) and len(mentions) == 2:
+                nxt.iter = st.value
+                out.append(nxt)
+                i += 2
+                continue
+        out.append(st)
+        i += 1
+    return out
+
+
 def _conditional_values_to_statements(stmts, repo, f, new_funcs, resolve_helper):
     """x = A(..) if c else B(..)   /   return A(..) if c else B(..)      with a new helper called in an arm
     ->  if c: x = A(..) else: x = B(..)      so that the arm's call stands in statement position and can be spliced"""
@@ -963,6 +986,7 @@ def inline_new_helpers(repo, new_funcs, resolve_helper, bind_args, max_rounds=2)
                 stmts = _duplicate_tail_into_arms(stmts, repo, f, new_funcs, resolve_helper)
                 stmts = _first_of_generator(stmts, repo, f, new_funcs, resolve_helper)
                 stmts = _conditional_values_to_statements(stmts, repo, f, new_funcs, resolve_helper)
+                stmts = _generator_locals_to_loops(stmts, repo, f, new_funcs, resolve_helper)
                 out = []
                 for st in stmts:
                     # recurse into compound statements first
